@@ -23,30 +23,31 @@ import (
 // use the builders variant).
 
 type corpusSchema struct {
-	ID          string
-	Format      string
-	AM          *amSchema
-	Dir         string // input dir
-	SchemaPath  string
-	SchemaText  []byte
-	Validator   refValidator
-	Docs        map[string][]amDoc // accepted valid docs per object
-	Faults      map[string][]amDoc
-	Files       genFiles
-	GenErr      error
-	GenPanic    any
-	GenStack    string
-	GoOK        bool
-	PyOK        bool
-	GoTypes     map[string]bool   // objects registered in the Go driver
-	GoBuilders  map[string]string // normalised builder name → Go name, registered in the Go driver
-	Schemas     ast.Schemas       // IR handed to the Go jennies (context.schemas hook)
-	Contexts    map[string]languages.Context
-	LangSchemas map[string]ast.Schemas // per-language schemas handed to the jennies (context.schemas hook)
-	Discards    int
-	Veneers     string // builder veneers (YAML) applied in the run
-	Extra       string // name of the fixed workload this schema comes from
-	Targets     map[string]string
+	ID           string
+	Format       string
+	AM           *amSchema
+	Dir          string // input dir
+	SchemaPath   string
+	SchemaText   []byte
+	Validator    refValidator
+	Docs         map[string][]amDoc // accepted valid docs per object
+	Faults       map[string][]amDoc
+	Files        genFiles
+	GenErr       error
+	GenPanic     any
+	GenStack     string
+	GoOK         bool
+	PyOK         bool
+	GoTypes      map[string]bool   // objects registered in the Go driver
+	GoBuilders   map[string]string // normalised builder name → Go name, registered in the Go driver
+	GoConverters map[string]string
+	Schemas      ast.Schemas // IR handed to the Go jennies (context.schemas hook)
+	Contexts     map[string]languages.Context
+	LangSchemas  map[string]ast.Schemas // per-language schemas handed to the jennies (context.schemas hook)
+	Discards     int
+	Veneers      string // builder veneers (YAML) applied in the run
+	Extra        string // name of the fixed workload this schema comes from
+	Targets      map[string]string
 }
 
 type corpusOpts struct {
@@ -254,6 +255,7 @@ func (c *corpus) cleanup() { _ = os.RemoveAll(c.dir) }
 // Go driver
 
 var goMethodRe = regexp.MustCompile(`(?m)^func \(resource \*?(\w+)\) (UnmarshalJSONStrict|Validate|Equals)\(`)
+var goConverterRe = regexp.MustCompile(`(?m)^func (\w+)Converter\(input (\w+)\) string`)
 var goBuilderRe = regexp.MustCompile(`(?m)^var _ cog\.Builder\[(\w+)\] = \(\*(\w+)Builder\)\(nil\)`)
 
 func normName(s string) string {
@@ -318,6 +320,7 @@ type resp struct {
 	Internal    json.RawMessage ` + "`json:\"internal,omitempty\"`" + `
 	HarnessErr  string          ` + "`json:\"harness_err,omitempty\"`" + `
 	Recorded    int             ` + "`json:\"recorded\"`" + `
+	Code        string          ` + "`json:\"code,omitempty\"`" + `
 }
 
 var stage string
@@ -348,6 +351,34 @@ func mkNested[T any](mkErr func(string) error) nestedOps {
 		},
 		failing: func() any { return failB[T]{mkErr("boom from nested builder")} },
 	}
+}
+
+type convOps struct {
+	convert func(doc []byte, r *resp)
+}
+
+func mkConv[T any](f func(T) string) convOps {
+	return convOps{convert: func(doc []byte, r *resp) {
+		var v T
+		stage = "json.Unmarshal"
+		if err := json.Unmarshal(doc, &v); err != nil {
+			r.DecodeErr = err.Error()
+			return
+		}
+		out, err := json.Marshal(v)
+		if err != nil {
+			r.MarshalErr = err.Error()
+		}
+		r.Out = out
+		if val, ok := any(&v).(interface{ Validate() error }); ok {
+			stage = "Validate"
+			if err := val.Validate(); err != nil {
+				r.ValidateErr = err.Error()
+			}
+		}
+		stage = "Converter"
+		r.Code = f(v)
+	}}
 }
 
 func norm(s string) string {
@@ -652,6 +683,10 @@ var nested = map[reflect.Type]nestedOps{
 %s
 }
 
+var converters = map[string]convOps{
+%s
+}
+
 func handle(q req) (r resp) {
 	r.ID = q.ID
 	defer func() {
@@ -661,6 +696,15 @@ func handle(q req) (r resp) {
 	}()
 	if q.Op == "build" {
 		buildOp(q, &r)
+		return
+	}
+	if q.Op == "convert" {
+		ops, ok := converters[q.Type]
+		if !ok {
+			r.Unknown = true
+			return
+		}
+		ops.convert(q.Doc, &r)
 		return
 	}
 	ops, ok := registry[q.Type]
@@ -718,10 +762,14 @@ func (c *corpus) buildGoDriver() error {
 		if err := goFiles.writeTo(filepath.Join(root, cs.ID)); err != nil {
 			return err
 		}
+		if _, hasRuntime := goFiles["cog/builder.go"]; hasRuntime && c.opts.Converters {
+			// converters call cog.Dump, which cog's runtime jenny does not emit: supplied from the repository's runtime snapshot
+			_ = os.WriteFile(filepath.Join(root, cs.ID, "cog", "dump_supplied_by_harness.go"), cogDumpHelper(), 0o644)
+		}
 		cs.GoOK = true
 	}
 	for attempt := 0; attempt < 8; attempt++ {
-		var imports, entries, bentries, nentries strings.Builder
+		var imports, entries, bentries, nentries, centries strings.Builder
 		n := 0
 		for _, cs := range c.Schemas {
 			if !cs.GoOK {
@@ -785,6 +833,20 @@ func (c *corpus) buildGoDriver() error {
 						n++
 					}
 				}
+				if c.opts.Converters {
+					cs.GoConverters = map[string]string{}
+					for _, p := range cs.Files.paths() {
+						if !strings.HasPrefix(p, "go/pk/") || !strings.HasSuffix(p, "_converter_gen.go") {
+							continue
+						}
+						for _, m := range goConverterRe.FindAllStringSubmatch(string(cs.Files[p]), -1) {
+							fmt.Fprintf(&centries, "\t%q: mkConv[p_%s.%s](p_%s.%sConverter),\n", cs.ID+"."+normName(m[1]), cs.ID, m[2], cs.ID, m[1])
+							cs.GoConverters[normName(m[1])] = m[1]
+							used = true
+							n++
+						}
+					}
+				}
 				if hasB {
 					fmt.Fprintf(&imports, "\tc_%s \"example.com/gen/%s/cog\"\n", cs.ID, cs.ID)
 				}
@@ -798,7 +860,7 @@ func (c *corpus) buildGoDriver() error {
 		}
 		drv := filepath.Join(root, "cmd", "driver")
 		_ = os.MkdirAll(drv, 0o755)
-		_ = os.WriteFile(filepath.Join(drv, "main.go"), []byte(fmt.Sprintf(goDriverTmpl, imports.String(), entries.String(), bentries.String(), nentries.String())), 0o644)
+		_ = os.WriteFile(filepath.Join(drv, "main.go"), []byte(fmt.Sprintf(goDriverTmpl, imports.String(), entries.String(), bentries.String(), nentries.String(), centries.String())), 0o644)
 		bin := filepath.Join(c.dir, "godriver")
 		cmd := exec.Command("go", "build", "-o", bin, "./cmd/driver")
 		cmd.Dir = root
@@ -880,6 +942,7 @@ type drvResp struct {
 	Recorded    int             `json:"recorded"`
 	CallErr     string          `json:"call_err"`    // python: exception raised by an option call
 	CallErrAt   int             `json:"call_err_at"` // index of that call
+	Code        string          `json:"code"`
 }
 
 // runDriver feeds requests to a driver process (in shards, in parallel) and returns responses by id.
@@ -994,4 +1057,178 @@ func sortedObjNames(m map[string][]amDoc) []string {
 	}
 	sort.Strings(ks)
 	return ks
+}
+
+// ---------------------------------------------------------------------------------------
+// Stage 2 (C14): Go expressions printed by generated converters are compiled and executed.
+
+type stage2Case struct {
+	ID   string
+	SID  string
+	Expr string
+}
+
+type stage2Resp struct {
+	ID       string          `json:"id"`
+	Out      json.RawMessage `json:"out"`
+	BuildErr string          `json:"build_err"`
+	Panic    string          `json:"panic"`
+}
+
+const stage2Main = `package main
+
+import (
+	"bufio"
+	"encoding/json"
+	"fmt"
+	"os"
+	"sort"
+)
+
+var cases = map[string]func() (any, error){}
+
+func register(id string, f func() (any, error)) { cases[id] = f }
+
+type resp struct {
+	ID       string          ` + "`json:\"id\"`" + `
+	Out      json.RawMessage ` + "`json:\"out,omitempty\"`" + `
+	BuildErr string          ` + "`json:\"build_err,omitempty\"`" + `
+	Panic    string          ` + "`json:\"panic,omitempty\"`" + `
+}
+
+func run(id string) (r resp) {
+	r.ID = id
+	defer func() {
+		if e := recover(); e != nil {
+			r.Panic = fmt.Sprint(e)
+		}
+	}()
+	v, err := cases[id]()
+	if err != nil {
+		r.BuildErr = err.Error()
+		if r.BuildErr == "" {
+			r.BuildErr = "(empty error message)"
+		}
+		return
+	}
+	out, err := json.Marshal(v)
+	if err != nil {
+		r.Panic = "marshal: " + err.Error()
+	}
+	r.Out = out
+	return
+}
+
+func main() {
+	ids := make([]string, 0, len(cases))
+	for id := range cases {
+		ids = append(ids, id)
+	}
+	sort.Strings(ids)
+	out := bufio.NewWriter(os.Stdout)
+	defer out.Flush()
+	for _, id := range ids {
+		b, _ := json.Marshal(run(id))
+		out.Write(b)
+		out.WriteByte('\n')
+	}
+}
+`
+
+var stage2DiagRe = regexp.MustCompile(`case_(\d+)\.go:(\d+)(?::(\d+))?: (.*)$`)
+
+// runStage2 compiles every expression in its own file of one program (compile errors are attributed by
+// file name, the offending files removed and the build retried), runs it, and returns the built objects.
+func (c *corpus) runStage2(cases []stage2Case) (resps map[string]stage2Resp, broken map[string]string, err error) {
+	root := filepath.Join(c.dir, "gomod")
+	dir := filepath.Join(root, "cmd", "stage2")
+	_ = os.RemoveAll(dir)
+	_ = os.MkdirAll(dir, 0o755)
+	_ = os.WriteFile(filepath.Join(dir, "main.go"), []byte(stage2Main), 0o644)
+	fileOf := map[int]string{}
+	for i, cse := range cases {
+		src := fmt.Sprintf("package main\n\nimport (\n\t\"time\"\n\n\tcog \"example.com/gen/%s/cog\"\n\tpk \"example.com/gen/%s/pk\"\n)\n\nvar _ cog.BuildErrors\nvar _ = time.UTC\nvar _ = pk.%s\n\nfunc init() {\n\tregister(%q, func() (any, error) {\n\t\treturn %s.Build()\n\t})\n}\n", cse.SID, cse.SID, "New"+c.anyBuilderOf(cse.SID)+"Builder", cse.ID, cse.Expr)
+		_ = os.WriteFile(filepath.Join(dir, fmt.Sprintf("case_%06d.go", i)), []byte(src), 0o644)
+		fileOf[i] = cse.ID
+	}
+	broken = map[string]string{}
+	bin := filepath.Join(c.dir, "stage2bin")
+	built := false
+	for attempt := 0; attempt < 6 && !built; attempt++ {
+		cmd := exec.Command("go", "build", "-gcflags=-e", "-o", bin, "./cmd/stage2")
+		cmd.Dir = root
+		cmd.Env = append(os.Environ(), "GOFLAGS=-mod=mod", "GOPROXY=off", "GOSUMDB=off", "GOTOOLCHAIN=local", "GOWORK=off")
+		out, berr := cmd.CombinedOutput()
+		if berr == nil {
+			built = true
+			break
+		}
+		removed := 0
+		for _, line := range strings.Split(string(out), "\n") {
+			m := stage2DiagRe.FindStringSubmatch(strings.TrimSpace(line))
+			if m == nil {
+				continue
+			}
+			var i int
+			fmt.Sscanf(m[1], "%d", &i)
+			id := fileOf[i]
+			if _, seen := broken[id]; !seen {
+				broken[id] = m[4]
+				_ = os.Remove(filepath.Join(dir, fmt.Sprintf("case_%06d.go", i)))
+				removed++
+			}
+		}
+		if removed == 0 {
+			return nil, broken, fmt.Errorf("stage-2 build failed without attributable diagnostics: %s", truncate(string(out), 1500))
+		}
+	}
+	if !built {
+		return nil, broken, fmt.Errorf("stage-2 build did not converge")
+	}
+	outPath := filepath.Join(c.dir, "stage2.out.jsonl")
+	errPath := filepath.Join(c.dir, "stage2.err.txt")
+	outF, _ := os.Create(outPath)
+	errF, _ := os.Create(errPath)
+	cmd := exec.Command(bin)
+	cmd.Stdout, cmd.Stderr = outF, errF
+	done := make(chan error, 1)
+	_ = cmd.Start()
+	go func() { done <- cmd.Wait() }()
+	var werr error
+	select {
+	case werr = <-done:
+	case <-time.After(5 * time.Minute):
+		_ = cmd.Process.Kill()
+		werr = fmt.Errorf("stage-2 watchdog expired")
+	}
+	outF.Close()
+	errF.Close()
+	resps = map[string]stage2Resp{}
+	f, _ := os.Open(outPath)
+	defer f.Close()
+	sc := bufio.NewScanner(f)
+	sc.Buffer(make([]byte, 1<<20), 1<<26)
+	for sc.Scan() {
+		var r stage2Resp
+		if json.Unmarshal(sc.Bytes(), &r) == nil && r.ID != "" {
+			resps[r.ID] = r
+		}
+	}
+	if werr != nil {
+		eb, _ := os.ReadFile(errPath)
+		return resps, broken, fmt.Errorf("stage-2 run: %v: %s", werr, truncate(string(eb), 1500))
+	}
+	return resps, broken, nil
+}
+
+// anyBuilderOf returns the Go name of some builder of the schema (keeps the pk import used in every case file).
+func (c *corpus) anyBuilderOf(sid string) string {
+	for _, cs := range c.Schemas {
+		if cs.ID == sid {
+			for _, k := range sortedKeys(cs.GoBuilders) {
+				return cs.GoBuilders[k]
+			}
+		}
+	}
+	return "Missing"
 }
